@@ -1,0 +1,175 @@
+//go:build verif
+// +build verif
+
+package slog
+
+// Hooks for the verification harness under /verif. This file is compiled
+// only with `-tags verif`; it adds entry points to unexported state and
+// changes no existing behaviour.
+
+import (
+	logslog "log/slog"
+	"maps"
+	"slices"
+	"time"
+
+	"github.com/hedzr/is"
+	"github.com/hedzr/is/term/color"
+
+	"github.com/hedzr/logg/slog/internal/times"
+)
+
+type verifSnapshot struct {
+	taken                bool
+	allLevels            []Level
+	levelToString        map[Level]string
+	stringToLevel        map[string]Level
+	shortTagMap          map[int]map[Level]string
+	mLevelIsEnabledAs    map[Level]Level
+	mLevelUseErrorDevice map[Level]bool
+	mLevelColors         map[Level][]color.Color
+	flags                Flags
+	lvlCurrent           Level
+	minimalMessageWidth  int
+	levelOutputWidth     int
+	knownPathMap         map[string]string
+	knownPathRegexpMap   []regRepl
+	codeHosting          map[string]string
+}
+
+var verifSnap verifSnapshot
+
+func verifTake() {
+	if verifSnap.taken {
+		return
+	}
+	verifSnap = verifSnapshot{
+		taken:                true,
+		allLevels:            slices.Clone(allLevels),
+		levelToString:        maps.Clone(levelToString),
+		stringToLevel:        maps.Clone(stringToLevel),
+		shortTagMap:          map[int]map[Level]string{},
+		mLevelIsEnabledAs:    maps.Clone(mLevelIsEnabledAs),
+		mLevelUseErrorDevice: maps.Clone(mLevelUseErrorDevice),
+		mLevelColors:         maps.Clone(mLevelColors),
+		flags:                flags,
+		lvlCurrent:           lvlCurrent,
+		minimalMessageWidth:  minimalMessageWidth,
+		levelOutputWidth:     levelOutputWidth,
+		knownPathMap:         maps.Clone(knownPathMap),
+		knownPathRegexpMap:   slices.Clone(knownPathRegexpMap),
+		codeHosting:          maps.Clone(codeHostingProvidersMap),
+	}
+	for k, v := range shortTagMap {
+		verifSnap.shortTagMap[k] = maps.Clone(v)
+	}
+}
+
+func init() { verifTake() }
+
+// VerifResetGlobals restores every package-level table and switch to the
+// value it had when the process started, and clears debug/trace mode.
+func VerifResetGlobals() {
+	verifTake()
+	allLevels = slices.Clone(verifSnap.allLevels)
+	levelToString = maps.Clone(verifSnap.levelToString)
+	stringToLevel = maps.Clone(verifSnap.stringToLevel)
+	shortTagMap = map[int]map[Level]string{}
+	for k, v := range verifSnap.shortTagMap {
+		shortTagMap[k] = maps.Clone(v)
+	}
+	mLevelIsEnabledAs = maps.Clone(verifSnap.mLevelIsEnabledAs)
+	mLevelUseErrorDevice = maps.Clone(verifSnap.mLevelUseErrorDevice)
+	mLevelColors = maps.Clone(verifSnap.mLevelColors)
+	flags = verifSnap.flags
+	lvlCurrent = verifSnap.lvlCurrent
+	minimalMessageWidth = verifSnap.minimalMessageWidth
+	levelOutputWidth = verifSnap.levelOutputWidth
+	knownPathMap = maps.Clone(verifSnap.knownPathMap)
+	knownPathRegexpMap = slices.Clone(verifSnap.knownPathRegexpMap)
+	codeHostingProvidersMap = maps.Clone(verifSnap.codeHosting)
+	is.SetDebugMode(false)
+	is.SetTraceMode(false)
+	defaultWriter = newDualWriter()
+	defaultLog = newDetachedLogger()
+}
+
+// VerifSetDebugMode switches the process-wide debug mode without touching a logger.
+func VerifSetDebugMode(b bool) { is.SetDebugMode(b) }
+
+// VerifInTesting reports the init-time decision used by Panic/Fatal and the error dump.
+func VerifInTesting() bool { return inTesting }
+
+// VerifErrorDumpActive reports whether appendErrorAfterPrinted may add lines.
+func VerifErrorDumpActive() bool { return inTesting || isDebug || isDebugging }
+
+// VerifHomeCwd returns the two builtin protected directories.
+func VerifHomeCwd() (home, cwd string) { return homeDir, currDir }
+
+// VerifKnownPathMap returns a copy of the current prefix mapping table.
+func VerifKnownPathMap() map[string]string { return maps.Clone(knownPathMap) }
+
+// VerifShortDur / VerifParseDuration re-export the internal duration helpers.
+func VerifShortDur(d time.Duration, frac bool) string { return times.SmartDurationStringEx(d, frac) }
+func VerifParseDuration(s string) (time.Duration, error) {
+	return times.ParseDuration(s)
+}
+
+// Level conversions used by the log/slog adapter.
+func VerifLogslogToLevel(l logslog.Level) Level      { return logsloglevel2Level(l) }
+func VerifConvertLogSlogLevel(l logslog.Level) Level { return convertLogSlogLevel(l) }
+func VerifConvertLevelToLogSlog(l Level) logslog.Level {
+	return convertLevelToLogSlog(l)
+}
+
+// VerifTreatedAs / VerifUsesErrorDevice / VerifHasColors expose the registry tables.
+func VerifTreatedAs(l Level) (Level, bool) { t, ok := mLevelIsEnabledAs[l]; return t, ok }
+func VerifUsesErrorDevice(l Level) bool    { _, ok := mLevelUseErrorDevice[l]; return ok }
+func VerifHasColors(l Level) bool          { _, ok := mLevelColors[l]; return ok }
+
+// VerifNewPrintCtx returns a fresh value encoder whose buffer holds initial.
+func VerifNewPrintCtx(initial []byte) *PrintCtx {
+	pc := newPrintCtx()
+	pc.buf = append(pc.buf[:0], initial...)
+	return pc
+}
+
+// VerifNewPrintCtxCap returns a value encoder over exactly the given slice
+// (same length and capacity), like bytes.NewBuffer.
+func VerifNewPrintCtxCap(buf []byte) *PrintCtx {
+	pc := newPrintCtx()
+	pc.buf = buf
+	return pc
+}
+
+// VerifCap reports the capacity of the encoder's buffer.
+func (s *PrintCtx) VerifCap() int { return cap(s.buf) }
+
+// VerifPoolPutCtx puts a print context with the given stale scratch state
+// into the pool, so that the next record is likely to be formatted with it.
+func VerifPoolPutCtx(clr, bg int, prefix string, inGrouped, skipComma bool, restLines string, eol bool, junk []byte, jsonMode, noColor bool) {
+	pc := newPrintCtx()
+	pc.clr, pc.bg = color.Color(clr), color.Color(bg)
+	pc.prefix = prefix
+	pc.inGroupedMode = inGrouped
+	pc.skipComma = skipComma
+	pc.restLines = restLines
+	pc.eol = eol
+	pc.buf = append(pc.buf, junk...)
+	pc.jsonMode, pc.noColor = jsonMode, noColor
+	pc.msg = "stale message"
+	pc.firstLine = "stale first line"
+	pc.lvl = PanicLevel
+	pc.layout = "stale 2006"
+	pc.utcTime = 1
+	pc.cachedSource = Source{Function: "stale.func", File: "/stale/file.go", Line: 99}
+	poolPrintCtx.Put(pc)
+}
+
+// VerifQuote renders a string the way string-like values are rendered.
+func VerifQuote(str string, jsonMode bool) string {
+	pc := newPrintCtx()
+	pc.jsonMode, pc.noColor = jsonMode, true
+	pc.appendQuotedString(str)
+	return string(pc.buf)
+}
